@@ -47,6 +47,9 @@ def instances(tier, seed):
     add("cell:perpendicular-not-axis-aligned:S22:axis0", struct='S22', axes=[0], other=(0, 0.6, 0.4), cost=40)
     add("cell:perpendicular-not-axis-aligned:S22:axis1", struct='S22', axes=[1], other=(0.7, 0, 0.9), cost=40)
     add("supercell:(2,1,1):S22-perpendicular-not-axis-aligned", struct='S22', axes=[2], other=(0.2, 0.7, 0), dims=(2, 1, 1), cost=120)
+    add("cell:strongly-tilted:S30:axis1", struct='S30', axes=[1], other=(0.6, 0, 0.2), cost=40)
+    add("cell:strongly-tilted:S31:axis1", struct='S31', axes=[1], other=(0.35, 0, 0.75), cost=40)
+    add("supercell:(1,2,1):S30-strongly-tilted", struct='S30', axes=[1], other=(0.2, 0, 0.55), dims=(1, 2, 1), cost=120)
     add("patpose:id:S23:two-fold-about-own-axis", struct='S23', axes=[1], other=(0.3, 0, 0.6), cost=20)
     add("patpose:p3:S23:two-fold-about-own-axis", struct='S23', axes=[1], other=(0.3, 0, 0.6), pat_pose='p3', pat_translate='sym', cost=20)
     add("hints:012:S23:two-fold-about-own-axis", struct='S23', axes=[2], other=(0.3, 0.2, 0), axisp1_idx=0, axisp2_idx=1, opoint_idx=2, cost=20)
